@@ -237,7 +237,7 @@ func guardedByS(fn *ssa.Function, at *ssa.BasicBlock, subj ssa.Value, mk Subject
 		if call == nil {
 			continue
 		}
-		h := call.Call.StaticCallee()
+		h := staticCallee(call)
 		if h == nil || !IsRepoFunc(h) || h.Blocks == nil || h == fn {
 			continue
 		}
@@ -360,7 +360,7 @@ func guardedByX(fn *ssa.Function, at *ssa.BasicBlock, mk CondMatcherX, sub Subst
 		if call == nil {
 			continue
 		}
-		h := call.Call.StaticCallee()
+		h := staticCallee(call)
 		if h == nil || !IsRepoFunc(h) || h.Blocks == nil || h == fn || !(isPrivateHelper(h) || h.Parent() != nil) {
 			continue
 		}
